@@ -165,12 +165,15 @@ func outputFile(content rel.Value, path string, fs afero.Fs, dryRun bool) error 
 	if err != nil {
 		return err
 	}
-	defer f.Close()
-
 	if _, err = f.Write(bytes); err != nil {
+		f.Close()
 		return err
 	}
-	return f.Sync()
+	if err = f.Sync(); err != nil {
+		f.Close()
+		return err
+	}
+	return f.Close()
 }
 
 func configureOutput(t rel.Tuple, dir string, fs afero.Fs, dryRun bool) error {
